@@ -31,6 +31,7 @@ def run(ctx):
         ctx.guard("C15", "traits", lambda: vis.trait_census(ctx, prog, scope='core::convert::'))
         ctx.guard("C15", "sym", lambda: eqord.len_index_symmetry(ctx, prog, scope=CONV, floor=4))
         ctx.guard("C15", "const values", lambda: data.const_census(ctx, prog, data.CONST_SCOPES["C15"], floor=1))
+        ctx.guard("C15", "panic conditions", lambda: beliefs.live_census(ctx, prog, beliefs.SCOPES["C15"][0]))
         ctx.guard("C15", "normalize-step", lambda: normal.normalize_step(ctx, prog))
         ctx.guard("C15", "summaries", lambda: summary.check(ctx, prog, 'core::convert::|::to_long_form|::from_short_form|::to_raw_form|::from_raw_form|::from_normalized|::to_normalized|::as_normalized|::clone_normalized|::normalize$|::into_mut', floor=8))
         ctx.guard("C15", "generic consts", lambda: summary.check_consts(ctx, prog, floor=13))
